@@ -77,6 +77,126 @@ def loop_variants():
     return obs
 
 
+def _free_names(loop):
+    return {n.id for n in ast.walk(loop) if isinstance(n, ast.Name) and isinstance(n.ctx, ast.Load)}
+
+
+def _loop_step_at_eof(m, fn, loop, cls):
+    """Symbolically execute `test; body` of a token-stream loop once, from a state in which the
+    stream is at its end (current token = EOF; every other local arbitrary).  Outcomes: the loop
+    is left (test false / break / return / raise) or the iteration completes (falls through)."""
+    import z3 as _z3
+
+    from pyvc.contract import Contract, ContractDef
+    from pyvc.engine import Engine
+    from pyvc.state import BRK, CONT, Raised, Ret, const
+    from pyvc.u import HList, HObj, U, VConst, VInt, VStr, VU
+
+    c = Contract(ContractDef(f"{m}:{fn.name}", "C09", lambda c_: None))
+    c.summary("liquid.stream:TokenStream._operator", lambda eng, st, a, k: [(st, VStr(_z3.String("operator_name")))])
+    eng = Engine(c)
+    st = c.st
+    mod = load.get_module(m)
+    EOFK = "end of expression"
+    eof = st.alloc(HObj(("liquid.token", "Token"), {"kind": const(EOFK), "value": const(EOFK), "start_index": const(-1), "source": const("")}, {}, "eof"))
+    stream = st.alloc(HObj(("liquid.stream", "TokenStream"), {"tokens": st.alloc(HList(items=[])), "pos": const(0), "block_depth": VInt(_z3.Int("depth")), "eof": eof}, {}, "stream"))
+    locs = {"__frame__": VConst({"module": mod, "cls": (m, cls.name) if cls else None, "closure": None, "qual": fn.name, "self_name": "self"})}
+    for name in _free_names(loop):
+        if name in ("stream", "tokens"):
+            locs[name] = stream
+        elif name == "self" and cls is not None:
+            locs[name] = st.alloc(HObj((m, cls.name), {}, {"*": "U"}, "self"))
+        elif name in ("token", "tok"):
+            locs[name] = eof      # a local that caches the current token
+        elif name in ("kind", "value"):
+            locs[name] = const(EOFK)
+    st.locals = locs
+    # locals initialised as containers before the loop hold arbitrary contents when it is reached
+    from pyvc.u import SeqU
+    for a in ast.walk(fn):
+        tgt = a.targets[0] if isinstance(a, ast.Assign) and len(a.targets) == 1 else (a.target if isinstance(a, ast.AnnAssign) else None)
+        if isinstance(tgt, ast.Name) and tgt.id in _free_names(loop) and tgt.id not in locs and a.lineno < loop.lineno:
+            if isinstance(a.value, ast.List):
+                locs[tgt.id] = st.alloc(HList(seq=_z3.Const(f"list_{tgt.id}", SeqU)))
+            elif isinstance(a.value, ast.Dict):
+                locs[tgt.id] = c.dict(f"dict_{tgt.id}")
+    for name in _free_names(loop):
+        if name not in locs and eng.module_name(mod, name) is None and eng.builtin_name(name) is None:
+            locs[name] = VU(_z3.Const(f"local_{name}", U))
+    outs = []
+    for s, tv in eng.ev(loop.test, st):
+        if isinstance(tv, Raised):
+            outs.append("raise")
+            continue
+        for s2, t in eng.branch(s, eng.truth(s, tv)):
+            if not t:
+                outs.append("test-false")
+                continue
+            for _s3, o in eng.exec_block(loop.body, s2):
+                outs.append("raise" if isinstance(o, Raised) else ("break" if o is BRK else ("return" if isinstance(o, Ret) else "completes-the-iteration")))
+    return outs
+
+
+@structural("C09", "loops-end-at-eof")
+def loops_end_at_eof():
+    """next() does not advance a stream that is at its end, so the variant len(tokens) - pos
+    stops decreasing there: every token-stream loop must be LEFT by an iteration that starts at
+    EOF.  Decided by symbolic execution of one loop step from the EOF state (pyvc, no solver query
+    beyond path feasibility); together with 'loop-variants' (progress before EOF) this is
+    termination of the parse loops."""
+    obs = []
+    n = 0
+    for m in PARSER_MODULES:
+        mod = load.get_module(m)
+        pm = flow.parents(mod.tree)
+        for fn in [x for x in ast.walk(mod.tree) if isinstance(x, (ast.FunctionDef, ast.AsyncFunctionDef))]:
+            for k, loop in enumerate(sorted([x for x in ast.walk(fn) if isinstance(x, ast.While)], key=lambda x: x.lineno)):
+                test = flow.dotted(loop.test)
+                if not any(t in test for t in ("stream", "tokens", "True", "current", "peek")):
+                    continue
+                n += 1
+                cls = next(iter(flow.enclosing(pm, fn, (ast.ClassDef,))), None)
+                label = f"{m.split('.')[-1]}.{fn.name}:while#{k}:an-iteration-that-starts-at-EOF-leaves-the-loop"
+                try:
+                    outs = _loop_step_at_eof(m, fn, loop, cls)
+                    ok = bool(outs) and "completes-the-iteration" not in outs
+                    obs.append(flow.ob(label, ok, f"outcomes at EOF: {sorted(set(outs))} (while {test[:60]}, line {loop.lineno})", replay_schema="code", replay_extra={"code": REPLAY_EOF}))
+                except Exception as e:  # noqa: BLE001
+                    o = flow.ob(label, False, f"{type(e).__name__}: {e}")
+                    o["status"] = "undecided"
+                    obs.append(o)
+    obs.append(flow.ob("token-stream-loops-found", n >= 5, f"{n} loops"))
+    return obs
+
+
+REPLAY_EOF = r'''
+def run(m):
+    import signal
+    from liquid import Environment, Mode
+    class Hang(BaseException):
+        pass
+    def alarm(*_):
+        raise Hang()
+    signal.signal(signal.SIGALRM, alarm)
+    bad = []
+    heads = ["{% doc %}", "{% comment %}", "{% if x %}", "{% for a in b %}", "{% case x %}", "{% unless x %}", "{% raw %}", "{% capture c %}", "{% if a", "{{ a | f: ", "{% for a in (1..", "{% case x %}{% when "]
+    tails = ["", " text", "{{ a }}", "{% assign q = 1 %}", "{% if y %}"]
+    for h in heads:
+        for t in tails:
+            for mode in (Mode.STRICT, Mode.LAX):
+                signal.setitimer(signal.ITIMER_REAL, 3)
+                try:
+                    Environment(tolerance=mode).from_string(h + t)
+                except Hang:
+                    bad.append((h + t, mode.name))
+                except Exception:
+                    pass
+                finally:
+                    signal.setitimer(signal.ITIMER_REAL, 0)
+    return {"violated": bool(bad), "observed": bad[:3], "witness": "parse-hangs-on-unterminated-input"}
+'''
+
+
 @structural("C09", "extends-cycle-guard")
 def extends_cycle_guard():
     """the chain walk loads template X only after `X in seen` failed and X was added to `seen`:
